@@ -26,6 +26,7 @@ from ..core import Ctx, Report, pmap
 from ..tlc import MachineryError, fn_to_dict
 
 NET_TPLS = ["binet", "splitnet"]
+FRAC_TPLS = ["frac"]                                       # unmapped bystander with non-integer coefficients
 THREE_TPLS = ["tri3", "split3", "homo3", "trimer"]        # three units of base stoichiometry on one side
 ALL_TPLS = ["uni", "bi", "split", "influx", "efflux", "rev", "homo", "dimer", "cof", "byst", "der", "chain"]
 
@@ -46,6 +47,7 @@ INVARIANT ThAtom
 INVARIANT ThSum
 INVARIANT ThInit
 INVARIANT ThReject
+INVARIANT ThDen
 {emitinv}
 CHECK_DEADLOCK FALSE
 """
@@ -134,8 +136,9 @@ def judge(scn: dict, obs: dict) -> dict | None:
     if set(exp_rxns) != set(got):
         return {"what": "reaction names", "missing": sorted(set(exp_rxns) - set(got))[:8],
                 "unexpected": sorted(set(got) - set(exp_rxns))[:8]}
+    dens = {r["name"]: int(r.get("den", 1)) for r in scn["b"]["rxns"] if not r["mapped"]}
     for name, r in exp_rxns.items():
-        st = {k: v for k, v in fn_to_dict(r["st"]).items() if v != 0}
+        st = {k: (v if dens.get(name, 1) == 1 else v / dens[name]) for k, v in fn_to_dict(r["st"]).items() if v != 0}
         if st != got[name]["st"]:
             return {"what": "stoichiometry", "reaction": name, "expected": st, "observed": got[name]["st"]}
         if list(r["args"]) != got[name]["args"]:
@@ -449,9 +452,9 @@ def tlc_families(ctx: Ctx, rep: Report, fams: list[dict]) -> list[dict]:
         sim, depth = f.pop("simulate", None), f.pop("depth", None)
         cfg = ctx.write_cfg(f"{name}.cfg", cfg_text(**f))
         extra = {"simulate": sim, "depth": depth or 60, "seed": ctx.seed} if sim else {}
-        return name, what, ctx.tlc("LabelExpandMC.tla", str(cfg), tag=name, workers=6, jvm=["-Xmx4g"], **extra)
+        return name, what, ctx.tlc("LabelExpandMC.tla", str(cfg), tag=name, workers=2, jvm=["-Xmx4g"], **extra)
 
-    with ThreadPoolExecutor(max_workers=min(5, len(fams))) as ex:      # (each JVM is capped at 4 GB: several run side by side)
+    with ThreadPoolExecutor(max_workers=min(4, len(fams))) as ex:      # (4 JVMs x 2 workers, each capped at 4 GB)
         results = list(ex.map(one, fams))
     out = []
     for name, what, res in results:
@@ -474,7 +477,7 @@ def run(ctx: Ctx) -> int:
         "expansion) or fewer than S entries (must be rejected); unmapped reactions touch only unlabelled compounds",
     ]
     # ---- teeth: the implementation-shaped argument renaming is rejected by TLC -----------------------------
-    pinned = ctx.tlc("LabelExpandMC.tla", "LabelExpand_pinned.cfg", expect_violation=True)
+    pinned = ctx.tlc("LabelExpandMC.tla", "LabelExpand_pinned.cfg", expect_violation=True, workers=4)
     if pinned.violated != "ThSum":
         raise MachineryError("ArgMode=\"last\" (dict-keyed argument renaming of the pinned commit) should violate "
                              f"ThSum on 2A -> B; TLC said {pinned.violated!r}: the specification has lost its teeth")
@@ -489,15 +492,19 @@ def run(ctx: Ctx) -> int:
             dict(name="init_all", what="exhaustive: every initial-label request combination (A+B->C, counts 1..2)",
                  tpls=["bi"], maxnl=2, maxl=2, short=False, initall=True),
             dict(name="deep", what="seeded simulation: all templates, counts 1..3, max(S,P)<=6",
-                 tpls=ALL_TPLS, maxnl=3, maxl=6, simulate="num=30", depth=60),
+                 tpls=ALL_TPLS, maxnl=3, maxl=6, simulate="num=90", depth=60),
             # order of the compounds inside a stoichiometry dict and declaration order of variables / reactions as explicit
             # dimensions (B + A -> C written against the variable order A, B, C: positions are counted along B first)
-            dict(name="orders", what="exhaustive: A+B->C, A->B+C, cofactor and chain templates in the presentation orders swap / rev / "
+            dict(name="orders", what="exhaustive: A+B->C, A->B+C, cofactor, chain and fractional-bystander templates in the presentation orders swap / "
                  "swaprev, label counts 1..2, all maps with max(S,P)<=3",
-                 tpls=["bi", "split", "cof", "chain"], maxnl=2, maxl=3, short=False, ords=("swap", "rev", "swaprev")),
+                 tpls=["bi", "split", "cof", "chain"] + FRAC_TPLS, maxnl=2, maxl=3, short=False, ords=("swap", "swaprev")),
             dict(name="three", what="exhaustive: three units on one side (A+B+C->D, A->B+C+D, 2A+B->C with non-adjacent mentions, A->3B), "
                  "label counts 1..2, all maps with max(S,P)<=3, short maps",
-                 tpls=THREE_TPLS, maxnl=2, maxl=3),
+                 tpls=THREE_TPLS + FRAC_TPLS, maxnl=2, maxl=3),
+            # atom counts that do not balance with two compounds on the affected side (A(1)+B(1)->C(3): external positions
+            # appended after two substrates; A(3)->B(1)+C(1): the map is longer than the products' atoms)
+            dict(name="uneven", what="exhaustive: A+B->C, A->B+C, cofactor template, label counts 1..3, all maps with max(S,P)<=3",
+                 tpls=["bi", "split", "cof"], maxnl=3, maxl=3, short=False),
             dict(name="orders_net", what="exhaustive: merge and split inside a network (0->A, 0->B, A+B->C->0; 0->A->B+C, B->0, C->0) whose "
                  "other reactions introduce the compounds first, all four presentation orders, label counts 1..2, all maps max(S,P)<=2",
                  tpls=NET_TPLS, maxnl=2, maxl=2, short=False, ords=("std", "swap", "rev", "swaprev")),
@@ -520,7 +527,7 @@ def run(ctx: Ctx) -> int:
                  tpls=[t for t in ALL_TPLS if t not in heavy], maxnl=2, maxl=4, short=False, ords=("swap", "rev", "swaprev")),
             dict(name="three", what="exhaustive: three units on one side (A+B+C->D, A->B+C+D, 2A+B->C with non-adjacent mentions, A->3B), "
                  "label counts 1..2, all maps with max(S,P)<=4, short maps",
-                 tpls=THREE_TPLS, maxnl=2, maxl=4),
+                 tpls=THREE_TPLS + FRAC_TPLS, maxnl=3, maxl=4),
             dict(name="orders_net", what="exhaustive: merge and split inside a network whose other reactions introduce the compounds "
                  "first, all four presentation orders, label counts 1..2, all maps max(S,P)<=3",
                  tpls=NET_TPLS, maxnl=2, maxl=3, short=False, ords=("std", "swap", "rev", "swaprev")),
@@ -548,7 +555,7 @@ def run(ctx: Ctx) -> int:
         raise MachineryError(f"only {n_ord} merge/split cases whose compounds are written against the declaration order")
     rep.notes["cases"] = {"total": len(scns), "rejected_expected": n_rej, "doubled_multi_position": n_dbl,
                           "merge_split_against_declaration_order": n_ord,
-                          "by_template": {t: sum(1 for s in scns if s["tpl"] == t) for t in ALL_TPLS + NET_TPLS + THREE_TPLS}}
+                          "by_template": {t: sum(1 for s in scns if s["tpl"] == t) for t in ALL_TPLS + NET_TPLS + THREE_TPLS + FRAC_TPLS}}
     # ---- binding self-test: one corrupted expected value must be noticed by the comparison ---------------------
     probe = next(s for s in scns if s["outcome"] == "ok" and s["tpl"] == "bi")
     probe_obs = observe(probe)
@@ -568,7 +575,7 @@ def run(ctx: Ctx) -> int:
     rep.notes["binding_selftest"] = "corrupting one expected dy / initial value / argument list of a replayed case is detected; " \
                                     "a corrupted recorded observation is rejected by TLC (oracle)"
     # ---- spec -> code --------------------------------------------------------------------------------------
-    results = pmap(_work, scns, chunk=32)
+    results = pmap(_work, scns, procs=8, chunk=32)
     for scn, (bad, cross) in zip(scns, results):
         if cross is not None:
             raise MachineryError(f"rendered base model disagrees with the specification's base semantics: {cross}")
@@ -591,8 +598,12 @@ def run(ctx: Ctx) -> int:
     if n_three < 100:
         raise MachineryError(f"only {n_three} accepted cases with three units on one side of a mapped reaction")
     rep.notes["cases"]["three_units_on_a_side"] = n_three
+    n_frac = sum(1 for s in scns if s["outcome"] == "ok" and any(int(r.get("den", 1)) > 1 for r in s["b"]["rxns"]))
+    if n_frac < 10:
+        raise MachineryError(f"only {n_frac} cases with an unmapped reaction that has non-integer coefficients")
+    rep.notes["cases"]["unmapped_reaction_with_fractional_coefficients"] = n_frac
     # ---- sessions on one mapper object -------------------------------------------------------------------------
-    memo = ctx.tlc("LabelExpandSession.tla", "LabelExpandSession_memo.cfg", expect_violation=True)
+    memo = ctx.tlc("LabelExpandSession.tla", "LabelExpandSession_memo.cfg", expect_violation=True, workers=4)
     if memo.violated != "Faithful":
         raise MachineryError("Memo=TRUE (isotopomer table generated once per mapper) should violate Faithful; "
                              f"TLC said {memo.violated!r}: the session specification has lost its teeth")
@@ -604,7 +615,7 @@ def run(ctx: Ctx) -> int:
         cfgs.append(("sessions2", ctx.write_cfg("sessions2.cfg", SESSION_CFG.format(maxnl=2, maxsets=1, styles='{"id", "rev"}'))))
     sessions = []
     for tag, cfgp in cfgs:
-        res = ctx.tlc("LabelExpandSession.tla", str(cfgp), tag=tag, workers=8, jvm=["-Xmx4g"])
+        res = ctx.tlc("LabelExpandSession.tla", str(cfgp), tag=tag, workers=4, jvm=["-Xmx4g"])
         rep.add_tlc(res, "sessions on one mapper: first use (build | get | get, tamper) x field mutations (count added / changed / "
                          "removed, map style; in place | by assignment) each followed by build; control build, build")
         sessions += res.payloads
@@ -613,7 +624,7 @@ def run(ctx: Ctx) -> int:
     kinds = {st["op"]["k"] for s_ in sessions for st in s_["steps"]}
     if kinds != {"build", "get", "tamper", "set", "style"}:
         raise MachineryError(f"session family does not exercise every operation: {sorted(kinds)}")
-    sres = pmap(_work_session, sessions, chunk=16)
+    sres = pmap(_work_session, sessions, procs=8, chunk=16)
     n_sess_bad = 0
     for sess, (bad, crash) in zip(sessions, sres):
         if crash is not None:
@@ -631,7 +642,7 @@ def run(ctx: Ctx) -> int:
     cases = doc_example_cases()
     n_rand = 300 if ctx.quick else 4000
     rnd = random.Random(ctx.seed)
-    cases += pmap(random_case, [(rnd.randrange(1 << 30), f"rand-{j}") for j in range(n_rand)], chunk=16)
+    cases += pmap(random_case, [(rnd.randrange(1 << 30), f"rand-{j}") for j in range(n_rand)], procs=8, chunk=16)
     # binding self-test: the documentation example's record with one observed derivative off by one must be rejected
     bent = json.loads(json.dumps(cases[0]))
     bent["id"] = "selftest-corrupted-observation"
